@@ -118,7 +118,7 @@ class ListTrash:
                          show_files):
         try:
             contents = self.content_reader.contents_of(trashinfo_path)
-        except IOError as e:
+        except (IOError, UnicodeError) as e:
             yield Error(str(e))
         else:
             try:
